@@ -3,7 +3,7 @@
    Statements only. *)
 From Coq Require Import ZArith List Bool.
 From CP Require Import Core.Bytes Core.Result Prim.Mpint Spec.PL Spec.SshSpec Ssh.Record Lemmas.MpintLemmas Lemmas.SshLemmas.
-From CP Require Import Spec.Registry Lemmas.RegistryTables.
+From CP Require Import Spec.Registry Lemmas.RegistrySsh.
 From CPGen Require Import Tables.
 Open Scope Z_scope.
 
